@@ -46,7 +46,10 @@ let shownet_op (args : string list) : string =
                          | [u; i] -> (n_of_int (ios u), dbuf_of_s i) | _ -> failwith "bad handler")
                (String.split_on_char ',' spec) in
     let t = new_trace () in
-    let sta = ref st0 and stb = ref st0 in
+    let sta = ref st0 and stb = ref st0 and stc = ref st0 in
+    (* third instance: a persistent receive buffer (0xA5 where nothing was ever received) *)
+    let persist = ref (List.init (int_of_n sN_PACKET_SIZE) (fun _ -> n_of_int 0xA5)) in
+    let rec drop_l k l = if k <= 0 then l else match l with [] -> [] | _ :: r -> drop_l (k - 1) r in
     let twin = ref true and known = ref false and crash = ref false in
     let cap = int_of_n sN_PACKET_SIZE in
     let obs st hit =
@@ -57,13 +60,14 @@ let shownet_op (args : string list) : string =
       if not (sn_in d !sta) then known := true;
       let bufa, n = mkbuf_p cap d 0x00 in
       let bufb, _ = mkbuf_p cap d 0xA5 in
-      match run bufa (sn_handle n !sta), run bufb (sn_handle n !stb) with
-      | Hazard Oob, _ | _, Hazard Oob -> crash := true; raise Exit
-      | Hazard h, _ | _, Hazard h -> t.hz <- hazard_s h; raise Exit
-      | Done (sa, ha), Done (sb, hb) ->
-        sta := sa; stb := sb;
-        let oa = obs sa ha and ob = obs sb hb in
-        if oa <> ob then twin := false;
+      persist := d @ drop_l (List.length d) !persist;
+      match run bufa (sn_handle n !sta), run bufb (sn_handle n !stb), run !persist (sn_handle n !stc) with
+      | Hazard Oob, _, _ | _, Hazard Oob, _ | _, _, Hazard Oob -> crash := true; raise Exit
+      | Hazard h, _, _ | _, Hazard h, _ | _, _, Hazard h -> t.hz <- hazard_s h; raise Exit
+      | Done (sa, ha), Done (sb, hb), Done (sc, hc) ->
+        sta := sa; stb := sb; stc := sc;
+        let oa = obs sa ha and ob = obs sb hb and oc = obs sc hc in
+        if oa <> ob || oa <> oc then twin := false;
         t.cls <- ((match ha with None -> "drop" | Some _ -> "handled") ^ (if sn_in d !sta then "" else "!")) :: t.cls;
         t.steps <- oa :: t.steps)
       dgs with Exit -> ());
@@ -91,7 +95,9 @@ let acn_op (args : string list) : string =
     let ev_s e = match e with
       | AcnEvData u -> "d" ^ ni u
       | EvPage (cid, page, last, us) ->
-        "p" ^ hex_of_bytes cid ^ "." ^ ni page ^ "." ^ ni last ^ "." ^ String.concat "_" (List.map ni us) in
+        "p" ^ hex_of_bytes cid ^ "." ^ ni page ^ "." ^ ni last ^ "." ^ String.concat "_" (List.map ni us)
+      | EvRdm133 (seq, ep, d) -> "r" ^ string_of_n seq ^ "." ^ ni ep ^ "." ^ hex_of_bytes d
+      | EvLlrp (cid, tn, d) -> "l" ^ hex_of_bytes cid ^ "." ^ string_of_n tn ^ "." ^ hex_of_bytes d in
     (try List.iter (fun dg ->
       let buf, n = mkbuf (int_of_n aCN_MAX_DATAGRAM) (bytes_of_hex dg) in
       match run buf (acn_handle ign n !hs) with
@@ -100,7 +106,9 @@ let acn_op (args : string list) : string =
         let changed = (hs' <> !hs) in
         hs := hs';
         let evs = List.rev evs in
-        t.cls <- (if List.exists (fun e -> match e with EvPage _ -> true | _ -> false) evs then "page"
+        t.cls <- (if List.exists (fun e -> match e with EvRdm133 _ -> true | _ -> false) evs then "e133"
+                  else if List.exists (fun e -> match e with EvLlrp _ -> true | _ -> false) evs then "llrp"
+                  else if List.exists (fun e -> match e with EvPage _ -> true | _ -> false) evs then "page"
                   else if evs <> [] then "data" else if changed then "state" else "drop") :: t.cls;
         let es = if evs = [] then "-" else String.concat "+" (List.map ev_s evs) in
         let src_s s = hex_of_bytes s.s_cid ^ "." ^ ni s.s_seq ^ "." ^ dbuf_s s.s_buf in
